@@ -96,7 +96,8 @@ CLAIMS = {
         design_ref="5 (C08)"),
     "C11": dict(
         technique="Coq proof (global step theorem: operator status only through an accepted OPER of the connection itself or the default modes at registration, by a modes/owner frame through all 41 commands, teardown and KILL delivery; characterisation of OPER; no-grant frame of the user-mode interpreter; exact results of KILL/DIE/SQUIT/WALLOPS/STATS per privilege) + privilege-level sweep and an operator-status oracle on the real server",
-        text="WALLOPS as a whole step after any history (C11_wallops_step): from a (local) operator everything sent in the step is one copy to each +w user, from anybody else the one 481 to the sender and nothing to anybody else; state unchanged, nobody closed. "
+        text="KILL and DIE from a connection without operator status, as whole steps after any history: the one privilege error to the sender, nothing to anybody else, nobody closed, state and connection records unchanged (C11_kill_refused_step, C11_die_refused_step). "
+             "WALLOPS as a whole step after any history (C11_wallops_step): from a (local) operator everything sent in the step is one copy to each +w user, from anybody else the one 481 to the sender and nothing to anybody else; state unchanged, nobody closed. "
              "Theorems (props/C11.v): C11_operator_only_from_oper - for every step of every connection from a world satisfying the invariant, a user who is an operator afterwards was one before on the same "
              "connection, or belongs to the acting connection whose line was an OPER naming a configured operator with the verifying password from a matching source, or has just registered under default "
              "modes containing +o; no other of the 40 commands creates an operator or local operator (C11_no_other_command_confers); NO USER CAN CHANGE ANOTHER USER'S MODES and operator status is LOST ONLY BY REMOVING THE MODE OR DISCONNECTING, over every event of every connection: a record after a step carries the user modes of a record of the same connection before it unless the event is that connection's own MODE or OPER line (OPER never clears the operator flag) or its registration (C11_modes_follow_commands, modes frame through all 41 commands, registration, teardown, KILL delivery), hence a user who stays connected and is no longer an operator has sent a MODE command itself in that step (C11_oper_lost_only_by_own_mode); OPER confers iff configured name, password, mask; MODE on the own nick "
